@@ -11,6 +11,7 @@ ENGINES = {
  "codec": ("harness/codec.cpp", "registry of 125 parse/toXml pairs of the library; DOM mutators, transparent-position probing, canonical comparison; under ASan/UBSan"),
  "msg": ("harness/msg.cpp", "QXmppMessage split into public/sensitive parts the way the encrypted send path and the OMEMO manager do it, and recovered from both parts"),
  "sasl": ("harness/sasl.cpp", "SaslManager / Sasl2Manager / QXmppSaslClient behind a mock SendDataInterface, driven by JSON lines; Python reference choice function and RFC implementations"),
+ "split": ("harness/split.cpp", "loopback TCP feeder that delivers a byte stream to the real XmppSocket chunk by chunk and records the open/stanza/close events and the observed read sizes"),
  "stun": ("harness/stun.cpp", "QXmppStunMessage encode/decode + HMAC/CRC helpers driven by JSON lines; Python hmac/zlib oracle"),
 }
 CHECKS = {
@@ -51,6 +52,10 @@ CHECKS["C18"] = dict(engine="atm", cat="exploration",
    text="histories over {manual authenticate/distrust, trust message(sender account, sender key, own-device / own-other-device / contact, 1-2 owners, trusted/distrusted subsets, foreign usage)} on a universe of 3 accounts and 10 keys under both security policies: exhaustive words of length <= 2 (quick) / 3 (thorough) over a 26-step alphabet plus 20000 / 10^6 random histories of length <= 25; after every step the full trust state is read back and judged by frame conditions F1-F5 (who may cause which change, held-back decisions fire exactly on authentication and are discarded on distrust)",
    note="frame conditions are our reading of the statement/XEP-0450; memory storage back end only",
    tech="runtime monitoring: offline checker of frame conditions over recorded state snapshots (history + reachability of justification chains), under ASan/UBSan")
+CHECKS["C03"] = dict(engine="split", cat="exploration",
+   text="40 streams (3 headers, 14 stanza kinds with 2/3/4-byte UTF-8, entities, quotes, whitespace keep-alives, with/without stream close) delivered over a real loopback TCP connection to the real XmppSocket: every 2-way split of every stream (exhaustive), one byte at a time, and 2000 (quick) / 200000 (thorough) random k-way splits biased to multi-byte characters, entities and tag interiors; the event sequence must equal that of the one-shot delivery",
+   note="loopback TCP, one flush per chunk with the receiver drained in between (observed read sizes are recorded); Qt's socket and XML layers are trusted",
+   tech="runtime monitoring: metamorphic oracle (chunking independence) with explicitly driven read boundaries, under ASan/UBSan")
 REASON_TODO = "check not built yet in this session (planned, see DESIGN.md §2)"
 
 def main():
